@@ -150,7 +150,7 @@ class ExprMixin:
 
     def e_IfExp(self, n):
         tv = self.eval(n.test)
-        if isinstance(tv, Opaque):
+        if isinstance(tv, Opaque) or getattr(tv, "unknown", False):
             return self.eval(n.body) if self.ctx.decide_opaque("ifexp") else self.eval(n.orelse)
         t = self.ctx.truth(tv)
         if isinstance(t, bool):
@@ -279,7 +279,7 @@ class ExprMixin:
     def e_UnaryOp(self, n):
         v = self.eval(n.operand)
         ctx = self.ctx
-        if isinstance(v, Opaque):
+        if isinstance(v, Opaque) or getattr(v, "unknown", False):
             return Opaque("unary", fresh=True)
         if isinstance(n.op, ast.Not):
             t = ctx.truth(v)
